@@ -321,17 +321,24 @@ def eval_pattern(pattern, flags, tier, how="match"):
     suspicious = tree is None or out.get("eda") or out["worst_family"]["budget_exceeded"]
     out["suspicious"] = bool(suspicious)
     if suspicious:
-        lens = list(range(14, 34, 2))
-        strs = [pre + pump * max(1, L2 // len(pump)) + suf for L2 in lens]
+        # growth per added pump, measured where a polynomial cannot imitate an exponential: with n pumps a polynomial of
+        # degree d grows by (1 + 1/n)^d per pump, which is < 1.5 for every d <= 8 once n >= 20; an exponentially ambiguous
+        # pattern keeps its factor (>= 1.5) for every n.  The family is extended until the 25 s guard stops the subprocess.
+        counts = list(range(8, 61))
+        strs = [pre + pump * c + suf for c in counts]
+        lens = [len(x) for x in strs]
         times = real_times(pattern, flags, strs, how, timeout=25)
-        ratios = [times[i + 1] / max(times[i], 1e-6) for i in range(len(times) - 1) if times[i] > 2e-4]
         sustained = 0
         best = 0
-        for r in ratios:
+        for i in range(len(times) - 1):
+            if counts[i] < 20 or times[i] <= 2e-4:
+                continue
+            r = times[i + 1] / max(times[i], 1e-6)
             sustained = sustained + 1 if r >= 1.5 else 0
             best = max(best, sustained)
         t48 = real_times(pattern, flags, [probe], how, timeout=6)[0]
-        out["real_engine"] = {"family_lengths": lens, "family_seconds": [round(t, 5) for t in times],
+        out["real_engine"] = {"family_pump_counts": [counts[0], counts[-1]], "family_lengths": [lens[0], lens[-1]],
+                              "family_seconds": [round(t, 5) for t in times],
                               "sustained_growth_steps": best, "probe_length": len(probe), "probe_seconds": round(t48, 3)}
         out["verdict_superpolynomial"] = bool(best >= 6 or (times[-1] >= 25 and best >= 3))
         out["verdict_short_input_stalls"] = bool(t48 > 2.0)
@@ -529,6 +536,27 @@ def fam_im_many(n, dup=False):
                                          "images": {"Server": {"x86_64": imgs}}}})
 
 
+def _nested(n, leaf, as_list=False):
+    v = leaf
+    for _ in range(n):
+        v = [v] if as_list else {"a": v}
+    return v
+
+
+def _manifest_doc(kind, table):
+    return json.dumps({"header": {"type": "productmd.%s" % kind, "version": "1.2"},
+                       "payload": {"compose": {"id": "F-23-20160102.0", "type": "production", "date": "20160102", "respin": 0},
+                                   kind: table}}, separators=(",", ":"))
+
+
+def fam_payload_nested(kind, as_list):
+    """the manifest table (stored as given by the three manifest readers) nested n levels deep"""
+    def gen(n, dup=False):
+        inner = _nested(n, {} if not as_list else [], as_list)
+        return kind, _manifest_doc(kind, {"Server": {"x86_64": inner}})
+    return gen
+
+
 STRUCT_FAMILIES = {
     "composeinfo-chain": (fam_ci_chain, False), "composeinfo-chain-children-listed-twice": (fam_ci_chain, True),
     "composeinfo-wide": (fam_ci_wide, False), "composeinfo-0.9-prefix-chain": (fam_ci_prefix, False),
@@ -536,6 +564,11 @@ STRUCT_FAMILIES = {
     "treeinfo-addon-chain": (fam_ti_addon_chain, False), "treeinfo-addon-chain-listed-twice": (fam_ti_addon_chain, True),
     "treeinfo-interpolation-fanout": (fam_ti_interpolation, False), "images-many-in-cell": (fam_im_many, False),
     "treeinfo-shared-addon-sections": (fam_ti_shared_addons, False),
+    "rpms-table-nested-dicts": (fam_payload_nested("rpms", False), False),
+    "rpms-table-nested-lists": (fam_payload_nested("rpms", True), False),
+    "modules-table-nested-dicts": (fam_payload_nested("modules", False), False),
+    "extra_files-table-nested-lists": (fam_payload_nested("extra_files", True), False),
+    "extra_files-table-nested-dicts": (fam_payload_nested("extra_files", False), False),
 }
 STEP_CAP = 250000
 
@@ -591,11 +624,14 @@ def count_calls(fn, hard_cap=None):
 
 def eval_struct(name):
     import productmd.composeinfo, productmd.images, productmd.treeinfo          # noqa
+    import productmd.rpms, productmd.modules, productmd.extra_files              # noqa
     gen, dup = STRUCT_FAMILIES[name]
     sizes, steps, nbytes = [], [], []
     for n in range(2, 26):
         fmt, text = gen(n, dup)
-        cls = {"ci": productmd.composeinfo.ComposeInfo, "im": productmd.images.Images, "ti": productmd.treeinfo.TreeInfo}[fmt]
+        cls = {"ci": productmd.composeinfo.ComposeInfo, "im": productmd.images.Images, "ti": productmd.treeinfo.TreeInfo,
+               "rpms": productmd.rpms.Rpms, "modules": productmd.modules.Modules,
+               "extra_files": productmd.extra_files.ExtraFiles}[fmt]
         c = count_calls(lambda: cls().loads(text))
         sizes.append(n)
         steps.append(c)
